@@ -7,7 +7,7 @@ from flow import generate, judge
 from pygen import write_pkg
 from runner import Opts, run_many
 
-NAMES = {"Loc": "LocCls", "Oth": "OthCls", "Col": "ColEnum", "TV": "TVar"}
+NAMES = {"Loc": "LocCls", "Oth": "OthCls", "Col": "ColEnum", "TV": "TVar", "TVS": "TSelf"}
 HEADER = '''from __future__ import annotations
 from typing import Any, Callable, Collection, Final, Generic, Literal, Mapping, Optional, Sequence, TypeVar, Union
 from enum import Enum
@@ -18,6 +18,9 @@ TVar = TypeVar("TVar")
 
 class LocCls:
     pass
+
+
+TSelf = TypeVar("TSelf", bound="LocCls")
 
 
 class ColEnum(Enum):
